@@ -78,14 +78,15 @@ def classify_coord_pred(test, var_names=None):
             return "no-transform"
     if isinstance(t, ast.BoolOp) and isinstance(t.op, ast.Or):
         kinds = [classify_coord_pred(v) for v in t.values]
-        # all(...) or coord_type == "cartesian"
+        # all(...) or coord_type == "cartesian": the list of types never equals a string, so `== "x"` is False and `!= "x"` is True
         main = kinds[0]
         if main in ("all-cartesian", "all-spherical"):
-            want = main.split("-")[1]
             for v in t.values[1:]:
-                if not (isinstance(v, ast.Compare) and len(v.ops) == 1 and isinstance(v.ops[0], ast.Eq)
-                        and isinstance(v.comparators[0], ast.Constant) and v.comparators[0].value == want):
+                if not (isinstance(v, ast.Compare) and len(v.ops) == 1 and isinstance(v.ops[0], (ast.Eq, ast.NotEq)) and isinstance(v.left, ast.Name)
+                        and isinstance(v.comparators[0], ast.Constant) and v.comparators[0].value in ("cartesian", "spherical")):
                     return None
+                if isinstance(v.ops[0], ast.NotEq):
+                    return "always"
             return main
         return None
     if isinstance(t, ast.BoolOp) and isinstance(t.op, ast.And):
@@ -192,8 +193,10 @@ def branch_state(conds):
             tr = "yes" if pol else "no"
         elif k == "no-transform":
             tr = "no" if pol else "yes"
-    pos = {k for k, pol in kinds if pol}
+    pos = {k for k, pol in kinds if pol} - {"always"}
     neg = {k for k, pol in kinds if not pol}
+    if "always" in neg:
+        return tr, "never"
     if "all-cartesian" in pos and "all-spherical" in pos:
         ty = None
     elif "all-cartesian" in pos:
